@@ -5,13 +5,13 @@ import json, os, shutil, sys
 sd, n, prop, what, needs = sys.argv[1:6]
 name = '%s_%s' % (os.path.basename(sd), n)
 ev = json.load(open('/tmp/seedeval/%s.json' % name))
-dst = '/verif/seeded/%s-%s' % (os.path.basename(sd), n)
+dst = '/verif/seeded/%s%s-%s' % (os.path.basename(sd), os.environ.get('SEED_SUFFIX', ''), n)
 os.makedirs(dst, exist_ok=True)
 shutil.copy(os.path.join(sd, '_seed', 'patch%s.diff' % n), os.path.join(dst, 'patch.diff'))
 shutil.copy(os.path.join(sd, '_seed', 'demo%s.py' % n), os.path.join(dst, 'demo.py'))
 caught = [c for c in ev['checks'] if c['exit'] == 1]
 meta = {
-    'property': prop, 'source': 'independent sub-agent given only the property text and a scratch worktree',
+    'property': prop, 'source': 'independent sub-agent given only the property text and a scratch worktree' + (' (second round: asked for rare trigger conjunctions)' if os.environ.get('SEED_SUFFIX') else ''),
     'what_it_changes': what, 'needs_to_manifest': needs,
     'confirmed': {
         'demo_exit_without_change': ev['demo_clean_exit'], 'demo_exit_with_change': ev['demo_patched_exit'],
